@@ -39,6 +39,14 @@ TIMEOUT = {"quick": 600, "thorough": 5400}
 #  are _handle_<component>_<Event> and the component part must be taken whole)
 NAMES = ["ca", "cb", "cc", "ca_x", "c_e"]
 FALSY_NAMES = ("cb", "c_e")
+CORE_ATTR_NAMES = ["scheduler", "version", "debug", "running", "components",
+                   "banner", "version_string", "starting_up"]
+
+
+def rename (x, mp):
+  if isinstance(x, str): return mp.get(x, x)
+  if isinstance(x, (list, tuple)): return type(x)(rename(y, mp) for y in x)
+  return x
 
 
 class Mon (object):
@@ -181,7 +189,9 @@ class Rdv (object):
     if not self.core.hasComponent(name):
       self.mon.fire("registered component not visible", name)
     try:
-      if getattr(self.core, name) is not obj:
+      # (a component whose name the core object uses itself is registered
+      #  like any other, but the attribute of that name stays the core's own)
+      if name not in CORE_ATTR_NAMES and getattr(self.core, name) is not obj:
         self.mon.fire("core attribute is not the component", name)
     except Exception as e:
       self.mon.fire("core attribute raises", "%s: %r" % (name, e))
@@ -642,6 +652,15 @@ def gen_rdv_random (rng, n):
         ops.append(["redeclare", rng.randrange(8)])
     if rng.random() < 0.4:
       ops.insert(rng.randrange(len(ops) + 1), ["goup"])
+    if rng.random() < 0.3:
+      # component names that are also names of attributes, properties or
+      # methods of the core object itself (they are names like any other)
+      mp = dict(zip(rng.sample(["ca", "cc", "ca_x"], 2),
+                    rng.sample(CORE_ATTR_NAMES, 2)))
+      # (listener wiring goes through the attribute of that name, which for
+      #  these names is not the component: callbacks only)
+      ops = rename([o for o in ops if o[0] not in ("ltd", "emit")], mp)
+      if not ops: ops = [["reg", "cb", "plain"]]
     yield dict(kind="rdv", ops=ops, rv=rng.randrange(4))
 
 
